@@ -94,7 +94,9 @@ def gen(rng, cid, nops):
             k, c = new(rng.choice(KINDS), f)
             how = rng.random()
             text = content(k, c)
-            if how < 0.5:
+            if how < 0.1:
+                ops.append({"op": "write_keepopen", "file": f, "text": text})
+            elif how < 0.5:
                 ops.append({"op": "write", "file": f, "text": text})
             elif how < 0.8:
                 ops.append({"op": "write_chunks", "file": f, "text": text, "chunks": rng.randint(2, 5)})
@@ -104,8 +106,14 @@ def gen(rng, cid, nops):
             invalid += k not in VALID
         elif r < 0.6 and state:
             f = rng.choice(sorted(state))
-            ops.append({"op": rng.choice(["delete", "rename_out"]), "file": f})
-            state.pop(f)
+            if rng.random() < 0.15:
+                # emptied in place by truncate(2): still there, no longer usable
+                ops.append({"op": "truncate", "file": f})
+                state[f] = ("empty", "x")
+                invalid += 1
+            else:
+                ops.append({"op": rng.choice(["delete", "rename_out"]), "file": f})
+                state.pop(f)
         elif r < 0.7 and state:
             f = rng.choice(sorted(state))
             to = rng.choice(FILES)
